@@ -7,9 +7,9 @@
   where the model is deliberately stricter than the source.  A `NaiveDate` is its packed word `yof`
   (`Date.yof` in the model); `rmap` maps a `Res` result, `Option.map` an `Option` result.
 -/
-import Chrono.Proofs.GenL
+import Chrono.Proofs.GenDateL
 namespace Chrono.Props.GenDate
-open Chrono Chrono.M Chrono.Extracted Chrono.Proofs.GenL
+open Chrono Chrono.M Chrono.Extracted Chrono.Extracted.DateOps Chrono.Proofs.GenL Chrono.Proofs.GenDateL
 
 theorem gen_from_year_mod_400_eq (ym : Int) (h : 0 ≤ ym ∧ ym < 400) :
     Gen.naive_internals.YearFlags.from_year_mod_400 ym = .ok (YearFlags.from_year_mod_400 ym : Nat) := by
@@ -256,23 +256,6 @@ theorem gen_day_eq (d : Date) : Gen.naive_date.NaiveDate.day d.yof = rmap Int.of
   cases d.mdf with
   | panic => rfl
   | ok m => exact congrArg Res.ok (gen_mdf_day_eq m)
-theorem from_year_lt (year : Int) : YearFlags.from_year year < 16 := by
-  unfold YearFlags.from_year YearFlags.from_year_mod_400
-  exact tbl_y2f.2 _ (by omega)
-
-/-- the packed word: `(year << 13) | (ordinal << 4) as i32 | flags as i32` is the sum of its fields -/
-theorem yof_pack (year : Int) (ordinal flags : Nat) (hy : -262144 ≤ year ∧ year ≤ 262143)
-    (ho : ordinal ≤ 511) (hf : flags < 16) :
-    GenRt.lorI 32 asI32 (GenRt.lorI 32 asI32 (asI32 (year * 8192)) (asI32 ((ordinal : Int) * 16 % 4294967296))) flags
-      = year * 8192 + ordinal * 16 + flags := by
-  have e0 : (ordinal : Int) * 16 % 4294967296 = ordinal * 16 := by omega
-  have e1 : asI32 (year * 8192) = year * 8192 := Proofs.asI32_id (by omega) (by omega)
-  have e2 : asI32 ((ordinal : Int) * 16) = ordinal * 16 := Proofs.asI32_id (by omega) (by omega)
-  have e3 : GenRt.lorI 32 asI32 (year * 8192) ((ordinal : Int) * 16) = year * 8192 + ordinal * 16 :=
-    lorI_field_4_9 _ _ (by omega) (by omega) (by omega) (by omega) (by omega)
-  rw [e0, e1, e2, e3]
-  exact lorI_field_0_4 _ _ (by omega) (by omega) (by omega) (by omega) (by omega)
-
 theorem gen_from_ordinal_and_flags_eq (year : Int) (ordinal flags : Nat) (ho : ordinal ≤ 4294967295) :
     Gen.naive_date.NaiveDate.from_ordinal_and_flags year ordinal flags =
       rmap (Option.map Date.yof) (Date.from_ordinal_and_flags year ordinal flags) := by
@@ -306,23 +289,6 @@ theorem gen_from_yo_opt_eq (year : Int) (ordinal : Nat) (ho : ordinal ≤ 429496
   rw [gen_from_year_eq, bind_ok]
   exact gen_from_ordinal_and_flags_eq year ordinal _ ho
 
-/-- what `Mdf::ordinal_and_flags` returns fits the low 13 bits and is a valid ordinal-leap word -/
-theorem mdf_oaf_range (mdf oaf : Nat) (h : Mdf.ordinal_and_flags mdf = .ok (some oaf)) :
-    oaf < 6656 ∧ 2 ≤ oaf / 8 ∧ oaf / 8 ≤ 732 := by
-  unfold Mdf.ordinal_and_flags at h
-  have hl := tbl_mdl.1
-  simp only [] at h
-  by_cases hm : mdf / 8 < MDL_TO_OL.length
-  · rw [if_pos hm] at h
-    have hv := tbl_mdl.2 (mdf / 8) (by omega)
-    generalize MDL_TO_OL.getD (mdf / 8) 0 = v at h hv
-    by_cases hz : v = 0
-    · rw [if_pos hz] at h; cases h
-    · rw [if_neg hz] at h
-      have : mdf - v * 8 = oaf := by injection h with h; injection h
-      omega
-  · rw [if_neg hm] at h; cases h
-
 theorem gen_from_mdf_eq (year : Int) (mdf : Nat) (hm : mdf ≤ 4294967295) :
     Gen.naive_date.NaiveDate.from_mdf year mdf = rmap (Option.map Date.yof) (Date.from_mdf year mdf) := by
   unfold Gen.naive_date.NaiveDate.from_mdf Date.from_mdf
@@ -344,13 +310,6 @@ theorem gen_from_mdf_eq (year : Int) (mdf : Nat) (hm : mdf ≤ 4294967295) :
           gen_from_yof_eq _ (by omega)]
         cases Date.from_yof (year * 8192 + ↑oaf) <;> rfl
 
-theorem mdf_new_range (month day flags mdf : Nat) (hf : flags < 16) (h : Mdf.new month day flags = some mdf) :
-    mdf < 8192 := by
-  unfold Mdf.new at h
-  by_cases hc : month ≤ 12 ∧ day ≤ 31
-  · rw [if_pos hc] at h; injection h with h; omega
-  · rw [if_neg hc] at h; cases h
-
 theorem gen_from_ymd_opt_eq (year : Int) (month day : Nat) (hm : month ≤ 4294967295) (hd : day ≤ 4294967295) :
     Gen.naive_date.NaiveDate.from_ymd_opt year month day =
       rmap (Option.map Date.yof) (Date.from_ymd_opt year month day) := by
@@ -363,27 +322,6 @@ theorem gen_from_ymd_opt_eq (year : Int) (month day : Nat) (hm : month ≤ 42949
   | some mdf =>
     have := mdf_new_range _ _ _ _ hF hq
     exact gen_from_mdf_eq year mdf (by omega)
-/-- the year-in-cycle and ordinal that `cycle_to_yo` returns -/
-theorem cycle_to_yo_range (cycle : Nat) (h : cycle < 146097) :
-    (Date.cycle_to_yo cycle).1 < 400 ∧ 1 ≤ (Date.cycle_to_yo cycle).2 ∧ (Date.cycle_to_yo cycle).2 ≤ 500 := by
-  unfold Date.cycle_to_yo
-  obtain ⟨hl, h0, hb⟩ := tbl_yd
-  have h400 := tbl_yd400
-  have hv := hb (cycle / 365) (by omega)
-  simp only []
-  by_cases hc : cycle % 365 < YEAR_DELTAS.getD (cycle / 365) 0
-  · have hne : cycle / 365 ≠ 0 := by
-      intro hz; rw [hz, h0] at hc; omega
-    have hv2 := hb (cycle / 365 - 1) (by omega)
-    rw [if_pos hc]
-    dsimp only
-    omega
-  · rw [if_neg hc]
-    dsimp only
-    have : cycle / 365 ≠ 400 := by
-      intro hz; rw [hz, h400] at hc; omega
-    omega
-
 theorem gen_from_num_days_from_ce_opt_eq (days : Int) (hd : -2147483648 ≤ days ∧ days ≤ 2147483647) :
     Gen.naive_date.NaiveDate.from_num_days_from_ce_opt days =
       rmap (Option.map Date.yof) (Date.from_num_days_from_ce_opt days) := by
@@ -438,9 +376,6 @@ theorem gen_pred_opt_eq (d : Date) (hd : -2147483648 ≤ d.yof ∧ d.yof ≤ 214
     cases ckI32 (d.yof / 8192 - 1) with
     | panic => rfl
     | ok y => exact gen_from_ymd_opt_eq y 12 31 (by omega) (by omega)
-theorem bind_assoc' {α β γ} (m : Res α) (f : α → Res β) (g : β → Res γ) :
-    (m >>= f) >>= g = m >>= fun x => f x >>= g := by cases m <;> rfl
-
 theorem gen_num_days_from_ce_eq (d : Date) (hd : -2147483648 ≤ d.yof ∧ d.yof ≤ 2147483647) :
     Gen.naive_date.NaiveDate.num_days_from_ce d.yof = d.num_days_from_ce := by
   unfold Gen.naive_date.NaiveDate.num_days_from_ce Date.num_days_from_ce
@@ -456,7 +391,7 @@ theorem gen_num_days_from_ce_eq (d : Date) (hd : -2147483648 ≤ d.yof ∧ d.yof
   · rw [if_pos hneg, if_pos hneg]
     have e1 : Int.tdiv (-(y - 1)) 400 = (-(y - 1)) / 400 := by rw [Proofs.tdiv_eq]; omega
     rw [ckI32_ok (show -2147483648 ≤ -(y - 1) ∧ -(y - 1) ≤ 2147483647 by omega), bind_ok, e1]
-    simp only [bind_assoc', Res.pure_eq, Res.bind_ok]
+    simp only [bind_assoc_res, Res.pure_eq, Res.bind_ok]
     rfl
   · rw [if_neg hneg, if_neg hneg]
     simp only [Res.pure_eq, Res.bind_ok]
@@ -466,22 +401,6 @@ theorem gen_num_days_from_ce_eq (d : Date) (hd : -2147483648 ≤ d.yof ∧ d.yof
 theorem gen_datelike_num_days_from_ce_eq (d : Date) (hd : -2147483648 ≤ d.yof ∧ d.yof ≤ 2147483647) :
     Gen.traits.NaiveDate.Datelike.num_days_from_ce d.yof = d.num_days_from_ce :=
   gen_num_days_from_ce_eq d hd
-theorem nisoweeks_range : ∀ f : Nat, f < 16 → 52 ≤ YearFlags.nisoweeks f ∧ YearFlags.nisoweeks f ≤ 53 := by
-  decide
-
-/-- `(year << 10) | (week << 4) as i32 | flags`: the packed ISO week is the sum of its fields -/
-theorem ywf_pack (year : Int) (week flags : Nat) (hy : -2097152 ≤ year ∧ year ≤ 2097151)
-    (hw : week ≤ 63) (hf : flags < 16) :
-    GenRt.lorI 32 asI32 (GenRt.lorI 32 asI32 (asI32 (year * 1024)) (asI32 ((week : Int) * 16 % 4294967296))) flags
-      = year * 1024 + week * 16 + flags := by
-  have e0 : (week : Int) * 16 % 4294967296 = week * 16 := by omega
-  have e1 : asI32 (year * 1024) = year * 1024 := Proofs.asI32_id (by omega) (by omega)
-  have e2 : asI32 ((week : Int) * 16) = week * 16 := Proofs.asI32_id (by omega) (by omega)
-  have e3 : GenRt.lorI 32 asI32 (year * 1024) ((week : Int) * 16) = year * 1024 + week * 16 :=
-    lorI_field_4_6 _ _ (by omega) (by omega) (by omega) (by omega) (by omega)
-  rw [e0, e1, e2, e3]
-  exact lorI_field_0_4 _ _ (by omega) (by omega) (by omega) (by omega) (by omega)
-
 theorem gen_isoweek_from_yof_eq (year : Int) (ordinal flags : Nat)
     (hy : -2097151 ≤ year ∧ year ≤ 2097150) (ho : ordinal ≤ 4294967000) (hf : flags < 16) :
     Gen.naive_isoweek.IsoWeek.from_yof year ordinal flags = IsoWeek.from_yof year ordinal flags := by
@@ -631,4 +550,95 @@ theorem gen_add_days_eq (d : Date) (days : Int) (hd : -2147483648 ≤ d.yof ∧ 
   · rw [if_neg hA]
     dsimp only
     exact slow _ _ inner
+theorem gen_with_mdf_eq (d : Date) (mdf : Nat) (hd : -2147483648 ≤ d.yof ∧ d.yof ≤ 2147483647)
+    (hm : mdf ≤ 4294967295) :
+    Gen.naive_date.NaiveDate.with_mdf d.yof mdf = rmap (Option.map Date.yof) (d.with_mdf mdf) := by
+  unfold Gen.naive_date.NaiveDate.with_mdf Date.with_mdf
+  rw [gen_year_flags_eq, gen_mdf_year_flags_eq, gen_mdf_ordinal_eq mdf hm, gen_yof_eq]
+  by_cases hfl : d.year_flags = Mdf.year_flags mdf
+  · rw [if_neg (show ¬ ¬ ((d.year_flags : Nat) : Int) = (Mdf.year_flags mdf : Nat) by omega),
+      if_neg (show ¬ (d.year_flags ≠ Mdf.year_flags mdf) from fun hn => hn hfl)]
+    cases hq : Mdf.ordinal mdf with
+    | panic => rfl
+    | ok o =>
+      cases o with
+      | none => rfl
+      | some ord =>
+        have hr := mdf_ordinal_range mdf ord hq
+        have hb : d.yof / 8 % 2 = (mdf / 8 % 2 : Nat) := by
+          unfold Date.year_flags Date.flags Mdf.year_flags at hfl; omega
+        show Res.bind (Gen.naive_date.NaiveDate.from_yof (GenRt.lorI 32 asI32 (d.yof - d.yof / 16 % 512 * 16)
+          (asI32 ((ord : Int) * 16 % 4294967296)))) (fun r2 => Res.ok (some r2)) = rmap (Option.map Date.yof)
+            (match Date.from_yof (d.yof - d.ordinal * 16 + (ord : Int) * 16) with
+              | .ok r => .ok (some r) | .panic => .panic)
+        rw [show (ord : Int) * 16 % 4294967296 = ord * 16 by omega, Proofs.asI32_id (by omega) (by omega),
+          lorI_field_4_9 _ _ (by omega) (by omega) (by omega) (by omega) (by omega),
+          show d.yof / 16 % 512 = d.ordinal from rfl,
+          gen_from_yof_eq _ (by unfold Date.ordinal; omega)]
+        cases Date.from_yof (d.yof - d.ordinal * 16 + ↑ord * 16) <;> rfl
+  · rw [if_pos (show ¬ ((d.year_flags : Nat) : Int) = (Mdf.year_flags mdf : Nat) by omega),
+      if_pos (show d.year_flags ≠ Mdf.year_flags mdf from hfl)]; rfl
+theorem gen_diff_months_eq (d : Date) (months : Int) (hd : -2147483648 ≤ d.yof ∧ d.yof ≤ 2147483647) :
+    Gen.naive_date.NaiveDate.diff_months d.yof months = rmap (Option.map Date.yof) (d.diff_months months) := by
+  unfold Gen.naive_date.NaiveDate.diff_months Date.diff_months
+  rw [gen_year_eq, gen_month_eq, gen_day_eq]
+  have hy : -262144 ≤ d.year ∧ d.year ≤ 262143 := by unfold Date.year; omega
+  rw [ckI32_ok (show -2147483648 ≤ d.year * 12 ∧ d.year * 12 ≤ 2147483647 by omega), bind_ok,
+    show d.year * DM_MUL = d.year * 12 from rfl,
+    ckI32_ok (show -2147483648 ≤ d.year * 12 ∧ d.year * 12 ≤ 2147483647 by omega)]
+  have hmd : d.month = .panic ↔ d.day = .panic := by
+    unfold Date.month Date.day; cases d.mdf <;> simp
+  cases hm : d.month with
+  | panic =>
+    have := hmd.mp hm
+    rw [this]; rfl
+  | ok m =>
+    cases hdy : d.day with
+    | panic => have := hmd.mpr hdy; rw [hm] at this; cases this
+    | ok day =>
+      dsimp only [bind_ok]
+      have hr := month_day_range d m day hm hdy
+      rw [show Int.ofNat m = (m : Int) from rfl, Proofs.asI32_id (by omega) (by omega)]
+      cases ckI32 (d.year * 12 + ↑m) with
+      | panic => rfl
+      | ok b =>
+        dsimp only [bind_ok]
+        rw [show b - DM_SUB = b - 1 from rfl]
+        cases ckI32 (b - 1) with
+        | panic => rfl
+        | ok c =>
+          dsimp only [bind_ok]
+          rw [optI32_def]
+          by_cases ht : -2147483648 ≤ c + months ∧ c + months ≤ 2147483647
+          · rw [if_pos ht]
+            dsimp only
+            generalize c + months = t at ht
+            have hF := from_year_lt (t / 12)
+            rw [Proofs.asU32_id (by omega) (by omega), ckU32_ok (by omega), bind_ok, gen_from_year_eq, bind_ok,
+              gen_ndays_eq _ (by omega), bind_ok, ckU32_ok (by omega), bind_ok]
+            simp only [show t / DM_DIV = t / 12 from rfl]
+            generalize YearFlags.ndays (YearFlags.from_year (t / 12)) = N
+            have hk : (t % 12).toNat < 12 := by omega
+            have hidx : (t % DM_REM).toNat + DM_ADD - 1 = (t % 12).toNat := by
+              show (t % 12).toNat + 1 - 1 = (t % 12).toNat; omega
+            have hmon : (t % DM_REM).toNat + DM_ADD = (t % 12).toNat + 1 := rfl
+            rw [show t % 12 + 1 - 1 = (((t % 12).toNat : Nat) : Int) by omega, days_idx _ N hk, bind_ok, hidx, hmon,
+              if_pos (show (t % 12).toNat < DM_DAYS.length from hk),
+              show t % 12 + 1 = (((t % 12).toNat + 1 : Nat) : Int) by omega]
+            generalize (if (t % 12).toNat = DM_FEB_INDEX then (if N = DM_NDAYS_LEAP then DM_FEB_LEAP else DM_FEB_COMMON)
+              else DM_DAYS.getD (t % 12).toNat 0) = dm
+            by_cases hgt : day > dm
+            · rw [if_pos (show Int.ofNat day > (dm : Int) by simp only [Int.ofNat_eq_natCast]; omega), if_pos hgt]
+              exact gen_from_ymd_opt_eq _ _ _ (by omega) (by omega)
+            · rw [if_neg (show ¬ Int.ofNat day > (dm : Int) by simp only [Int.ofNat_eq_natCast]; omega), if_neg hgt]
+              exact gen_from_ymd_opt_eq _ _ _ (by omega) (by omega)
+          · rw [if_neg ht]; rfl
+
+/-- the hypotheses are met by real dates: 1970-01-01 (`yof = 1970·8192 + 1·16 + 0o12`) and 2024-12-31 -/
+example : Gen.naive_date.NaiveDate.from_ymd_opt 1970 1 1 = .ok (some 16138266)
+    ∧ Gen.naive_date.NaiveDate.add_days 16138266 (-800000) = .ok (some (-1806469))
+    ∧ Gen.naive_date.NaiveDate.num_days_from_ce 16138266 = .ok 719163
+    ∧ Gen.naive_isoweek.IsoWeek.from_yof 2024 366 4 = .ok 2073414
+    ∧ Gen.naive_date.NaiveDate.pred_opt 16138266 = .ok (some 16135897) := by decide +kernel
+
 end Chrono.Props.GenDate
